@@ -130,6 +130,14 @@ func corpus() []*prog {
 	for v := 0; v < 7; v++ {
 		out = append(out, aliasClashProgram(gal.NewRand(uint64(26+v)), fmt.Sprintf("c%d", 26+v), "corpus", v))
 	}
+	// c33, c34: one path imported twice by a.go (ImportHandler.shadowed), an on-demand import named like
+	// the spec that was set aside
+	out = append(out, aliasClashProgram(gal.NewRand(33), "c33", "corpus", 7), aliasClashProgram(gal.NewRand(34), "c34", "corpus", 8))
+	// c35-c37: the ORDER in which imports become active: the on-demand import is rendered before the file's
+	// own import of the same name is activated (c35, c36), and the reverse (c37)
+	for v := 9; v <= 11; v++ {
+		out = append(out, aliasClashProgram(gal.NewRand(uint64(26+v)), fmt.Sprintf("c%d", 26+v), "corpus", v))
+	}
 	// c7, c8: one method per regression-prone shape (see shapeProgram), fixed seeds
 	out = append(out, shapeProgram(gal.NewRand(7), "c7", "corpus"), shapeProgram(gal.NewRand(8), "c8", "corpus"))
 	return out
